@@ -12,19 +12,31 @@ def voidOkL (p : PCfg) : List Node → Bool
   | n :: ns => voidOk p n && voidOkL p ns
 end
 
+theorem voidOkL_of_text (p : PCfg) : ∀ (ks : List Node), ks.all isTextNode = true → voidOkL p ks = true
+  | [], _ => by simp [voidOkL]
+  | .str _ _ :: ks, h => by
+    simp only [List.all_cons, Bool.and_eq_true] at h
+    simp [voidOkL, voidOk, voidOkL_of_text p ks h.2]
+  | .tag _ _ :: ks, h => by simp [isTextNode] at h
+
 mutual
-theorem representable_voidOk (p : PCfg) (f : Fmt) : ∀ (c : Bool) (n : Node), representable p f c n = true → voidOk p n = true
-  | _, .str _ _, _ => by simp [voidOk]
-  | c, .tag i kids, h => by
+theorem representable_voidOk (p : PCfg) (f : Fmt) : ∀ (n : Node), representable p f n = true → voidOk p n = true
+  | .str _ _, _ => by simp [voidOk]
+  | .tag i kids, h => by
     simp only [representable, Bool.and_eq_true] at h
     simp only [voidOk, Bool.and_eq_true]
-    exact ⟨h.1.1.1.1.2, representableL_voidOkL p f _ kids h.2⟩
-theorem representableL_voidOkL (p : PCfg) (f : Fmt) : ∀ (c : Bool) (ns : List Node), representableL p f c ns = true → voidOkL p ns = true
-  | _, [], _ => by simp [voidOkL]
-  | c, n :: ns, h => by
+    refine ⟨h.1.1.1.1.2, ?_⟩
+    have hk := h.2
+    split at hk
+    · simp only [rawKidsOK, Bool.and_eq_true] at hk
+      exact voidOkL_of_text p kids hk.1
+    · exact representableL_voidOkL p f kids hk
+theorem representableL_voidOkL (p : PCfg) (f : Fmt) : ∀ (ns : List Node), representableL p f ns = true → voidOkL p ns = true
+  | [], _ => by simp [voidOkL]
+  | n :: ns, h => by
     simp only [representableL, Bool.and_eq_true] at h
     simp only [voidOkL, Bool.and_eq_true]
-    exact ⟨representable_voidOk p f c n h.1, representableL_voidOkL p f c ns h.2⟩
+    exact ⟨representable_voidOk p f n h.1, representableL_voidOkL p f ns h.2⟩
 end
 
 theorem run_append (p : PCfg) (st : BState) (a b : List TEv) : run p st (a ++ b) = run p (run p st a) b := by
@@ -159,6 +171,83 @@ theorem run_node (p : PCfg) (f : Fmt) : ∀ (d : Node) (top : Frame) (rest : Lis
         rw [run_forest p f ks _ _ [] h.2]
         rw [step_stop_top]
         simp [closeFrame, normAttrs, ctxOf, List.append_assoc]
+end
+
+/-! ### the reader-level stream is the direct one on representable trees -/
+
+/-- what C09 proves of a substitution function and the readers: reading the written form gives the string back -/
+def ReaderLaws (rd : Reader) (f : Fmt) : Prop :=
+  ∃ g, f.subst = some g ∧ (∀ s, rd.text (g s) = s) ∧ (∀ v, rd.attr (quoteAttr (g v)) = some v)
+
+theorem evAttrsRd_eq (rd : Reader) (f : Fmt) (h : ReaderLaws rd f) (attrs : List (PStr × AVal)) :
+    evAttrsRd rd f attrs = evAttrs f attrs := by
+  obtain ⟨g, hg, _, ha⟩ := h
+  unfold evAttrsRd evAttrs
+  apply List.map_congr_left
+  intro kv _
+  cases hv : kv.2 <;> simp [substitute, hg, ha]
+
+/-- the content of script/style: written as it stands (the writer skips substitution), read as it stands -/
+theorem emitRdL_raw (p : PCfg) (rd : Reader) (f : Fmt) (h : ReaderLaws rd f) (nm : PStr)
+    (hw : f.cdataTags.contains nm = true) : ∀ (ks : List Node), ks.all isTextNode = true →
+    emitRdL p rd f (some nm) true ks = emitRL f ks
+  | [], _ => by simp [emitRdL, emitRL]
+  | .tag _ _ :: _, hk => by simp [isTextNode] at hk
+  | .str c s :: ks, hk => by
+    obtain ⟨g, hg, _, _⟩ := h
+    simp only [List.all_cons, Bool.and_eq_true, isTextNode] at hk
+    have hc : isTextCls c = true := hk.1.1
+    have hcp : c ≠ .preformatted := by intro e; subst e; simp [isTextCls] at hc
+    have hks : strKind c s = .text s := by cases c <;> simp_all [isTextCls, strKind]
+    have hd : readData rd f (some nm) true c s = s := by
+      simp only [readData, hcp, if_false, substitute, hg, hw, if_true]
+    simp only [emitRdL, emitRL, emitRd, emitR, emitStrRd, emitStr, hks, hd,
+      emitRdL_raw p rd f ⟨g, hg, ‹_›, ‹_›⟩ nm hw ks hk.2]
+
+mutual
+theorem emitRd_eq (p : PCfg) (rd : Reader) (f : Fmt) (h : ReaderLaws rd f) :
+    ∀ (n : Node) (pname : Option PStr), (match pname with | some n => f.cdataTags.contains n | none => false) = false →
+      representable p f n = true → emitRd p rd f pname false n = emitR f n
+  | .str c s, pname, hw, hr => by
+    obtain ⟨g, hg, ht, _⟩ := h
+    simp only [emitRd, emitR, emitStrRd, emitStr]
+    cases hk : strKind c s with
+    | special c' s' nl => rfl
+    | text t =>
+      have hts : t = s := by
+        cases c <;> simp [strKind] at hk <;> exact hk.symm
+      subst hts
+      have hcp : c ≠ .preformatted := by
+        intro hc; subst hc; simp [representable, okStr] at hr
+      have hd : readData rd f pname false c t = t := by
+        simp only [readData, hcp, if_false]
+        cases pname with
+        | none => simp [substitute, hg, ht]
+        | some n =>
+          have : f.cdataTags.contains n = false := hw
+          simp only [substitute, hg, this, Bool.false_eq_true, if_false, ht]
+      simp [hd]
+  | .tag i kids, pname, _, hr => by
+    simp only [representable, Bool.and_eq_true, beq_iff_eq] at hr
+    simp only [emitRd, emitR, evAttrsRd_eq rd f h]
+    have hkids : emitRdL p rd f (some i.name) (p.cdataElems.contains (fullName i)) kids = emitRL f kids := by
+      have hk := hr.2
+      by_cases hraw : p.cdataElems.contains (fullName i) = true
+      · simp only [hraw, if_true, rawKidsOK, Bool.and_eq_true] at hk
+        rw [hraw]
+        exact emitRdL_raw p rd f h i.name (by rw [hr.1.1.1.2, hraw]) kids hk.1
+      · have hraw' : p.cdataElems.contains (fullName i) = false := by simpa using hraw
+        simp only [hraw', Bool.false_eq_true, if_false] at hk
+        rw [hraw']
+        exact emitRdL_eq p rd f h kids (some i.name) (by show f.cdataTags.contains i.name = false; rw [hr.1.1.1.2, hraw']) hk
+    rw [hkids]
+theorem emitRdL_eq (p : PCfg) (rd : Reader) (f : Fmt) (h : ReaderLaws rd f) :
+    ∀ (ns : List Node) (pname : Option PStr), (match pname with | some n => f.cdataTags.contains n | none => false) = false →
+      representableL p f ns = true → emitRdL p rd f pname false ns = emitRL f ns
+  | [], _, _, _ => by simp [emitRdL, emitRL]
+  | n :: ns, pname, hw, hr => by
+    simp only [representableL, Bool.and_eq_true] at hr
+    simp only [emitRdL, emitRL, emitRd_eq p rd f h n pname hw hr.1, emitRdL_eq p rd f h ns pname hw hr.2]
 end
 
 end BS.Render
